@@ -73,6 +73,8 @@ def classify_common(rec):
         m = re.search(r"no such column: (\w+)\.(\w+)", str(rec.get("sqlite")))
         if m and re.search(r"ORDER BY [^()]*\b%s\.%s\b" % (re.escape(m.group(1)), re.escape(m.group(2))), sql):
             return "C07-N1-order-by-inner-relation"
+    if v == "rows" and rec["program"].meta.get("nested_group"):
+        return "F45-nested-group-partition"
     if v == "rows" and " INTERSECT " in sql and any(st.info.get("alljoin") and st.info.get("side") == "Inner" for st in rec["program"].steps):
         return "F41-inner-join-rewritten-to-intersect"
     if v in ("rows", "names", "sql-err"):
@@ -106,6 +108,13 @@ def directed_known(rng=None):
     def sel(names):
         return S("select", "select {%s}" % ", ".join(names), "TSelect [%s]" % "; ".join("(None, %s)" % col(c) for c in names), final=True)
     out = []
+    # F19: a take in front of a distinct shares its SELECT (`SELECT DISTINCT a FROM t LIMIT 3`: DISTINCT is evaluated first)
+    out.append(("F19-take-then-distinct", P.Program([
+        S("select", "select {a}", "TSelect [(None, %s)]" % col("a")),
+        S("sort", "sort {a}", "TSort [(false, %s)]" % col("a"), keys=[(False, ("col", None, "a"))]),
+        S("take", "take 3", "TTake None (Some (3))", rng=(None, 3)),
+        S("distinct", "group {a} (take 1)", "TDistinct", nkeys=1)], False, ["a"]),
+        {"t": [[1, 1, 0, 0, 0], [2, 1, 0, 0, 0], [3, 1, 0, 0, 0], [4, 2, 0, 0, 0], [5, 3, 0, 0, 0]], "u": [[1, 0, 0, 0]]}))
     # F32: a group key defined as an integer literal
     out.append(("F32-group-by-constant", P.Program([
         S("derive", "derive {k9 = 2}", "TDerive [(Some %d%%N, ELit (VInt 2))]" % n("k9")),
@@ -158,13 +167,13 @@ def directed_known(rng=None):
     out.append(("F44-grouped-aggregate-keeps-sort", P.Program([
         S("group_body", "group {a} (sort {b, id} | aggregate {x908 = sum c} | take 1)",
           "TGroupAgg [%d%%N] [(Some %d%%N, ASum, %s)]" % (n("a"), n("x908"), col("c")), by=["a"],
-          flat="PGroup true [PSort [false; false]; PAgg; PTake]"),
+          flat="PGroup 1 [PSort [false; false]; PAgg; PTake]"),
         sel(["a", "x908"])], False, ["a", "x908"], {"agg_in_group_not_last": True})))
     # F41: an inner join on all columns of both sides keeping the left columns is rewritten to INTERSECT
     on = "EBin And (EBin Eq (%s) (%s)) (EBin Eq (%s) (%s))" % (col("a", "t"), col("a", "u"), col("b", "t"), col("d", "u"))
     out.append(("F41-inner-join-rewritten-to-intersect", P.Program([
         S("select", "select {a, b}", "TExclude [%s]" % "; ".join("(None, %d%%N)" % n(c) for c in ("id", "c", "g"))),   # keeps the qualifier t
-        S("distinct", "group {a, b} (take 1)", "TDistinct"),
+        S("distinct", "group {a, b} (take 1)", "TDistinct", nkeys=2),
         S("join", "join u=(from u | select {a, d}) (t.a == u.a && t.b == u.d)",
           "TJoin Inner %d%%N %s (Rel.apply (TSelect [(None, %s); (None, %s)]) U_TABLE) (%s)" % (n("u"), P.coq_names(["a", "d"]), col("a"), col("d"), on),
           side="Inner", alljoin=True),
@@ -172,6 +181,23 @@ def directed_known(rng=None):
         False, ["a", "b"]),
         # a left row matched by two right rows (multiplicity) and a NULL key (`==` never matches NULL, INTERSECT does)
         {"t": [[1, 1, 1, 0, 0], [2, 1, 1, 0, 0], [3, 2, None, 0, 0]], "u": [[1, 1, 1, 0], [2, 1, 1, 0], [3, 2, None, 0]]}))
+    # F45: a group nested in a group is partitioned by its own key only (compiles since fix 592b6f8; was an error before).
+    # Reference: the inner group splits every chunk of the outer one = grouping by both keys
+    out.append(("F45-nested-group-partition", P.Program([
+        S("select", "select {id, a, c}", "TSelect [(None, %s); (None, %s); (None, %s)]" % (col("id"), col("a"), col("c"))),
+        S("group_body", "group {a} (group {c} (sort {id} | take 1) | filter (id != 99))",
+          "TGroupTake [%d%%N; %d%%N] [(false, %s)] None (Some (1))" % (n("a"), n("c"), col("id")), by=["a"],
+          flat="PGroup 1 [PGroup 1 [PSort [false]; PTake]; POther]"),
+        sel(["a", "c", "id"])], False, ["a", "c", "id"], {"nested_group": True}),
+        # two rows with the same inner key in different outer groups
+        {"t": [[1, 1, 0, 1, 0], [2, 2, 0, 1, 0], [3, 1, 0, 2, 0], [4, 2, 0, 1, 0]], "u": [[1, 0, 0, 0]]}))
+    out.append(("F45-nested-group-partition", P.Program([
+        S("select", "select {id, a, c}", "TSelect [(None, %s); (None, %s); (None, %s)]" % (col("id"), col("a"), col("c"))),
+        S("group_body", "group {a} (group {c} (aggregate {m9 = max id}) | filter (m9 != 99))",
+          "TGroupAgg [%d%%N; %d%%N] [(Some %d%%N, AMax, %s)]" % (n("a"), n("c"), n("m9"), col("id")), by=["a"],
+          flat="PGroup 1 [PGroup 1 [PAgg]; POther]"),
+        sel(["a", "c", "m9"])], False, ["a", "c", "m9"], {"nested_group": True}),
+        {"t": [[1, 1, 0, 1, 0], [2, 2, 0, 1, 0], [3, 1, 0, 2, 0], [4, 2, 0, 1, 0]], "u": [[1, 0, 0, 0]]}))
     # C07-N1: a sorted let-bound relation that keeps its sort column, then joined
     s_, u_ = n("s9"), n("u")
 
@@ -227,7 +253,7 @@ def directed_fixed():
     # bc8ad7d: `group {a} (take 1)` is a DISTINCT only if nothing behind it uses another column
     out.append(("bc8ad7d", P.Program([
         S("select", "select {a, b}", "TSelect [(None, %s); (None, %s)]" % (col("a"), col("b"))),
-        S("group_take1", "group {a} (take 1)", "TGroupTake [%d%%N] [] None (Some (1))" % n("a"), by=["a"], flat="PGroup true [PTake]"),
+        S("group_take1", "group {a} (take 1)", "TGroupTake [%d%%N] [] None (Some (1))" % n("a"), by=["a"], flat="PGroup 1 [PTake]"),
         S("sort", "sort {b}", "TSort [(false, %s)]" % col("b"), keys=[(False, ("col", None, "b"))]),
         sel(["a"])], False, ["a"])))
     # 3561315: DISTINCT ON and DISTINCT never share a SELECT (judged on the PQ of sql.postgres by the segment validator)
@@ -236,7 +262,7 @@ def directed_fixed():
         S("group_take", "group {a} (sort {b, id} | take 1)", "TGroupTake [%d%%N] [(false, %s); (false, %s)] None (Some (1))" % (n("a"), col("b"), col("id")),
           by=["a"], keys=[(False, ("col", None, "b")), (False, ("col", None, "id"))]),
         S("select", "select {a, b}", "TSelect [(None, %s); (None, %s)]" % (col("a"), col("b"))),
-        S("distinct", "group {a, b} (take 1)", "TDistinct")], False, ["a", "b"])))
+        S("distinct", "group {a, b} (take 1)", "TDistinct", nkeys=2)], False, ["a", "b"])))
     return out
 
 
